@@ -252,3 +252,87 @@ Proof.
   unfold ex_ops. cbn [good_ops]. repeat split; try (vm_compute; reflexivity);
     intros row Hin; simpl in Hin; destruct Hin as [<-|[]]; reflexivity.
 Qed.
+
+(* ---------- non-vacuity of the other theorems: their hypotheses hold for [ex_oracle] and surfaces
+   with a wide character, a cell behind it, an image, a cell under it and a glyph, and the conclusion
+   is about a non-trivial screen / command list ---------- *)
+Lemma ex_oracle_ok : oracle_ok ex_oracle.
+Proof.
+  split; [reflexivity|]. split; [reflexivity|]. intros f H. unfold ex_oracle in *. cbn [erasable ferase fspace] in *.
+  destruct (N.eqb f 4%N); [discriminate|reflexivity].
+Qed.
+
+Lemma ex_good : forall h w s,
+  in_domain ex_oracle h w s && no_image_overlap ex_oracle h w s = true -> good_surface ex_oracle h w s.
+Proof. intros h w s H. apply andb_true_iff in H. exact H. Qed.
+
+Ltac ex_gdims := split; [reflexivity|]; intros row Hin; simpl in Hin;
+                 repeat (destruct Hin as [<-|Hin]; [reflexivity|]); contradiction.
+
+(* the picture of ex_s1 has the left half of a wide character, its right half (where an 'x' was
+   drawn), a blank in face 2 under the image, and the placements of the image and of the glyph *)
+Example C01_show_is_denotation_nonvacuous :
+  oracle_ok ex_oracle /\ good_surface ex_oracle 2 7 ex_s1
+  /\ gget (sgrid (show ex_oracle 2 7 ex_s1)) 0 0 = Some (WL 19990%N, 1%N)
+  /\ gget (sgrid (show ex_oracle 2 7 ex_s1)) 0 1 = Some (WR, 1%N)
+  /\ gget (sgrid (show ex_oracle 2 7 ex_s1)) 1 3 = Some (Blank, 2%N)
+  /\ length (places (show ex_oracle 2 7 ex_s1)) = 2.
+Proof. split; [exact ex_oracle_ok|]. split; [apply ex_good|]; vm_compute; repeat split; reflexivity. Qed.
+
+(* a history ending in a 1x4 terminal, then [Draw; Frame] of a surface with two wide characters *)
+Definition ex_last : grid cell := [[chr 0%N 120%N; chr 1%N 19990%N; chr 0%N 121%N; chr 2%N 98%N]].
+Example C01_history_final_nonvacuous :
+  good_ops ex_oracle 2 7 ex_ops /\ size_after 2 7 ex_ops = (1, 4)
+  /\ good_surface ex_oracle 1 4 ex_last
+  /\ length (fst (frame ex_oracle (rdraw (fst (run ex_oracle (rnew 2 7 false) (blank_screen 2 7) ex_ops)) ex_last))) = 6.
+Proof.
+  split; [exact (proj1 (proj2 C01_history_nonvacuous))|]. split; [reflexivity|].
+  split; [apply ex_good|]; vm_compute; reflexivity.
+Qed.
+
+Example C01_scratch_nonvacuous :
+  good_surface ex_oracle 2 7 ex_s1
+  /\ length (fst (frame ex_oracle (rdraw (rnew 2 7 false) ex_s1))) = 18
+  /\ length (fst (frame ex_oracle (rdraw (rnew 2 7 true) ex_s1))) = 23.
+Proof. split; [apply ex_good|]; vm_compute; repeat split; reflexivity. Qed.
+
+(* a garbage screen: a right half without its left half, an orphan, a foreign placement *)
+Definition ex_garbage : screen :=
+  mkscreen 2 7 [[(WR, 3%N); (Orphan, 1%N); (Ch 122%N, 5%N); (Blank, 0%N); (WL 19990%N, 0%N); (Blank, 2%N); (Blank, 0%N)];
+                [(Blank, 0%N); (Blank, 0%N); (Blank, 0%N); (Blank, 0%N); (Blank, 0%N); (Blank, 0%N); (WL 19990%N, 4%N)]]
+           [(7%N, 1, 5)] (1, 6) 3%N false.
+Example C01_forced_nonvacuous :
+  good_surface ex_oracle 2 7 ex_s1 /\ scr_ok ex_garbage 2 7
+  /\ sgrid ex_garbage <> sgrid (show ex_oracle 2 7 ex_s1)
+  /\ In (7%N, 1, 5) (places (exec_list ex_oracle ex_garbage (fst (frame ex_oracle (rdraw (rnew 2 7 true) ex_s1))))).
+Proof.
+  split; [apply ex_good; vm_compute; reflexivity|]. split.
+  { unfold scr_ok, ex_garbage. cbn [sh sw err sgrid]. split; [reflexivity|]. split; [reflexivity|]. split; [reflexivity|]. ex_gdims. }
+  split; [intros H; vm_compute in H; discriminate|]. vm_compute. auto.
+Qed.
+
+(* the renderer has displayed ex_s1 (clear() erases its image and its glyph), the terminal shows garbage *)
+Definition ex_st : rstate := snd (frame ex_oracle (rdraw (rnew 2 7 false) ex_s1)).
+Example C01_clear_then_frame_nonvacuous :
+  rh ex_st = 2 /\ rw ex_st = 7 /\ good_surface ex_oracle 2 7 ex_s2 /\ scr_ok ex_garbage 2 7
+  /\ length (fst (rclear ex_st)) = 2
+  /\ sgrid (exec_list ex_oracle ex_garbage (fst (rclear ex_st))) <> sgrid (show ex_oracle 2 7 ex_s2).
+Proof.
+  split; [reflexivity|]. split; [reflexivity|]. split; [apply ex_good; vm_compute; reflexivity|].
+  split; [exact (proj1 (proj2 C01_forced_nonvacuous))|].
+  split; [vm_compute; reflexivity|]. intros H; vm_compute in H; discriminate.
+Qed.
+
+(* an unchanged surface full of overlaps (image over image, image over a wide character, wide
+   characters over one another, a character under an image): nothing is issued; one changed cell: something is *)
+Definition ex_pile : grid cell :=
+  [[img 2%N 1%N; img 0%N 0%N; chr 0%N 19990%N; chr 1%N 19990%N; chr 0%N 120%N; cell_default; cell_default];
+   [chr 3%N 19990%N; chr 0%N 97%N; cell_default; cell_default; cell_default; cell_default; cell_default]].
+Example C01_idle_frame_nonvacuous :
+  gdims ex_pile 2 7 /\ no_image_overlap ex_oracle 2 7 ex_pile = false
+  /\ fst (frame ex_oracle (mkrstate 2 7 ex_pile (gmap (resolve ex_oracle) ex_pile) (gmake 2 7 MEmpty))) = []
+  /\ fst (frame ex_oracle (mkrstate 2 7 ex_s2 (gmap (resolve ex_oracle) ex_pile) (gmake 2 7 MEmpty))) <> [].
+Proof.
+  split; [ex_gdims|]. split; [vm_compute; reflexivity|]. split; [vm_compute; reflexivity|].
+  intros H; vm_compute in H; discriminate.
+Qed.
